@@ -16,17 +16,25 @@ Import ListNotations.
 Local Open Scope Z_scope.
 
 Inductive flavour := FStr | FVar | FPtr | FXml.
+
+(* The value of a payload is its CONTENTS, not only its length: a sequence of markers 1..7 (the
+   characters '1'..'7' of a String, the integers 1..7 held by the elements of a Variant container,
+   the one-character texts of the children of an Xml element), most significant first, written as a
+   number in base 8.  [push c m] appends marker m (m = 0: nothing is appended: a write access that
+   does not grow the payload); [slen c] is the number of markers, i.e. String::length(). *)
+Definition push (c m : Z) : Z := if m =? 0 then c else 8 * c + m.
+Definition slen (c : Z) : Z := if c <=? 0 then 0 else Z.log2 c / 3 + 1.
 Inductive handle := HNone | HBlock (b : nat).
 Inductive var := VDead | VLive (refh objh : handle).
 Inductive fault := FUaf (b : nat) | FDouble (b : nat) | FUnderflow (b : nat) | FSharedWrite (b : nat).
 
-Record block := { rc : Z; freed : bool; len : Z; cap : Z; dtors : nat }.
+Record block := { rc : Z; freed : bool; val : Z; cap : Z; dtors : nat }.
 Record state := { heap : list block; vars : list var; flt : option fault }.
 
 Definition nvars : nat := 6.
 Definition init : state := {| heap := []; vars := repeat VDead nvars; flt := None |}.
 
-Definition dead_block : block := {| rc := 0; freed := true; len := 0; cap := 0; dtors := 0 |}.
+Definition dead_block : block := {| rc := 0; freed := true; val := 0; cap := 0; dtors := 0 |}.
 Definition getb (s : state) (b : nat) : block := nth b (heap s) dead_block.
 Definition setb (s : state) (b : nat) (k : block) : state :=
   {| heap := upd b k (heap s); vars := vars s; flt := flt s |}.
@@ -44,9 +52,9 @@ Definition touch (s : state) (b : nat) : state :=
   if freed (getb s b) then raise s (FUaf b) else s.
 
 Definition with_rc (k : block) (r : Z) : block :=
-  {| rc := r; freed := freed k; len := len k; cap := cap k; dtors := dtors k |}.
-Definition with_len (k : block) (l : Z) : block :=
-  {| rc := rc k; freed := freed k; len := l; cap := cap k; dtors := dtors k |}.
+  {| rc := r; freed := freed k; val := val k; cap := cap k; dtors := dtors k |}.
+Definition with_val (k : block) (l : Z) : block :=
+  {| rc := rc k; freed := freed k; val := l; cap := cap k; dtors := dtors k |}.
 
 (* Atomic::increment(ref) *)
 Definition inc (s : state) (b : nat) : state :=
@@ -61,9 +69,9 @@ Definition dec (s : state) (b : nat) : state * Z :=
 Definition free_blk (s : state) (b : nat) : state :=
   let k := getb s b in
   if freed k then raise s (FDouble b)
-  else setb s b {| rc := rc k; freed := true; len := len k; cap := cap k; dtors := S (dtors k) |}.
+  else setb s b {| rc := rc k; freed := true; val := val k; cap := cap k; dtors := S (dtors k) |}.
 Definition alloc (s : state) (r l c : Z) : state * nat :=
-  ({| heap := heap s ++ [{| rc := r; freed := false; len := l; cap := c; dtors := 0 |}];
+  ({| heap := heap s ++ [{| rc := r; freed := false; val := l; cap := c; dtors := 0 |}];
       vars := vars s; flt := flt s |}, length (heap s)).
 
 Definition is_ptr (f : flavour) : bool := match f with FPtr => true | _ => false end.
@@ -92,54 +100,79 @@ Definition count_refs (b : nat) (l : list var) : nat := length (filter (refers b
 Definition write_inplace (s : state) (b : nat) (newlen : Z) : state :=
   let s := touch s b in
   let s := if Nat.eqb (count_refs b (vars s)) 1 then s else raise s (FSharedWrite b) in
-  setb s b (with_len (getb s b) newlen).
+  setb s b (with_val (getb s b) newlen).
 
 Definition both (h : handle) : var := VLive h h.
 
 Inductive op :=
-| OCreate (v : nat) (n : Z)      (* new (&v) String(n,'x') | Variant(List of n) | Ptr<T>(new T(n)) *)
+| OCreate (v : nat) (n : Z)      (* new (&v) String(contents n) | Variant(container with contents n) | Ptr<T>(new T(n)) *)
 | ONull (v : nat)                (* new (&v) H() *)
 | OCopy (d s : nat)              (* new (&d) H(s) *)
 | OFromRaw (d s : nat)           (* Ptr only: new (&d) Ptr<T>(s.operator->())   (intrusive counter) *)
 | OAssign (d s : nat)            (* d = s *)
 | OReset (v : nat)               (* String::clear() | Variant::clear() | p = (T* )0 *)
 | OSwap (a b : nat)              (* Ptr only: a.swap(b) *)
-| OWrite (v : nat)               (* s.append('x') | v.toList().append(1) : write access then grow by one *)
+| OAssignRaw (d s : nat)         (* Ptr only: d = s.operator->()   (Ptr::operator=(C* ), also with d = s) *)
+| OAssignVal (v : nat) (c : Z)   (* Variant: v = <container with contents c> | Xml::Variant: v = <text c> *)
+| OWrite (v : nat) (m : Z)       (* s.append(char m) | v.toList().append(m) : write access, then append marker m *)
 | ODetach (v : nat)              (* s.detach() | v.toList() : write access only *)
 | ODestroy (v : nat).            (* v.~H() *)
 
-(* write access of String: detach(copyLength = len, minCapacity = mincap), then length := newlen *)
-Definition str_detach (s : state) (v : nat) (h : handle) (grow : Z) : state :=
+(* write access of String: detach(copyLength = length, minCapacity = new length), then the marker is
+   stored (m = 0: String::detach(), nothing stored) *)
+Definition str_detach (s : state) (v : nat) (h : handle) (m : Z) : state :=
   match h with
   | HBlock b =>
       let s := touch s b in
       let k := getb s b in
-      if (rc k =? 1) && (len k + grow <=? cap k) then
-        write_inplace s b (len k + grow)
+      if (rc k =? 1) && (slen (push (val k) m) <=? cap k) then
+        write_inplace s b (push (val k) m)
       else
-        let '(s, nb) := alloc s 1 (len k + grow) (Z.lor (len k + grow) 3) in
+        let '(s, nb) := alloc s 1 (push (val k) m) (Z.lor (slen (push (val k) m)) 3) in
         let s := touch s b in                       (* Memory::copy from the old payload *)
         let s := release FStr s h in
         setv s v (both (HBlock nb))
   | HNone =>                                        (* emptyData: ref = 0, clone path, no release *)
-      let '(s, nb) := alloc s 1 grow (Z.lor grow 3) in
+      let '(s, nb) := alloc s 1 (push 0 m) (Z.lor (slen (push 0 m)) 3) in
       setv s v (both (HBlock nb))
   end.
 
-(* write access of Variant: `if(type != listType || ref > 1)` clone, clear(), adopt; else in place *)
-Definition var_detach (s : state) (v : nat) (h : handle) (grow : Z) : state :=
+(* write access of Variant (toList / toMap / toArray / toString, non-const) and of Xml::Variant
+   (toElement): `if(type != T || ref > 1)` clone, clear(), adopt; else in place *)
+Definition var_detach (s : state) (v : nat) (h : handle) (m : Z) : state :=
   match h with
   | HBlock b =>
       let s := touch s b in
       let k := getb s b in
       if rc k >? 1 then
-        let '(s, nb) := alloc s 1 (len k + grow) 0 in
-        let s := touch s b in                       (* copy-constructs the list from the old payload *)
+        let '(s, nb) := alloc s 1 (push (val k) m) 0 in
+        let s := touch s b in                       (* copy-constructs the container from the old payload *)
         let s := release FVar s h in
         setv s v (both (HBlock nb))
-      else write_inplace s b (len k + grow)
+      else write_inplace s b (push (val k) m)
   | HNone =>
-      let '(s, nb) := alloc s 1 grow 0 in
+      let '(s, nb) := alloc s 1 (push 0 m) 0 in
+      setv s v (both (HBlock nb))
+  end.
+
+(* Variant::operator=(const List&|HashMap&|Array&|String&): `if(type != T || ref > 1)` new block holding a
+   copy of the argument, clear(), adopt; else `T copy(other); swap` in place.
+   Xml::Variant::operator=(const String&): the same test, but clear() comes before the allocation.
+   The old payload is not read. *)
+Definition assign_val (f : flavour) (s : state) (v : nat) (h : handle) (c : Z) : state :=
+  match h with
+  | HBlock b =>
+      let s := touch s b in
+      if rc (getb s b) >? 1 then
+        match f with
+        | FXml => let s := release FVar s h in
+                  let '(s, nb) := alloc s 1 c 0 in setv s v (both (HBlock nb))
+        | _ => let '(s, nb) := alloc s 1 c 0 in
+               let s := release FVar s h in setv s v (both (HBlock nb))
+        end
+      else write_inplace s b c
+  | HNone =>
+      let '(s, nb) := alloc s 1 c 0 in
       setv s v (both (HBlock nb))
   end.
 
@@ -150,8 +183,8 @@ Definition ptr_swap (obj_only : bool) (s : state) (a b : nat) (ra oa rb ob : han
 
 Definition op_vars (o : op) : list nat :=
   match o with
-  | OCreate v _ | ONull v | OReset v | OWrite v | ODetach v | ODestroy v => [v]
-  | OCopy a b | OFromRaw a b | OAssign a b | OSwap a b => [a; b]
+  | OCreate v _ | ONull v | OReset v | OWrite v _ | ODetach v | ODestroy v | OAssignVal v _ => [v]
+  | OCopy a b | OFromRaw a b | OAssign a b | OSwap a b | OAssignRaw a b => [a; b]
   end.
 
 Definition step_gen (obj_only : bool) (f : flavour) (s : state) (o : op) : state :=
@@ -162,7 +195,7 @@ Definition step_gen (obj_only : bool) (f : flavour) (s : state) (o : op) : state
       match getv s v with
       | VDead =>
           match f with
-          | FStr => let '(s, b) := alloc s 1 n (Z.lor n 3) in setv s v (both (HBlock b))
+          | FStr => let '(s, b) := alloc s 1 n (Z.lor (slen n) 3) in setv s v (both (HBlock b))
           | FVar | FXml => let '(s, b) := alloc s 1 n 0 in setv s v (both (HBlock b))
           | FPtr => let '(s, b) := alloc s 0 n 0 in        (* Object() : ref(0) *)
                     let s := setv s v (both (HBlock b)) in inc s b
@@ -252,11 +285,26 @@ Definition step_gen (obj_only : bool) (f : flavour) (s : state) (o : op) : state
       | FPtr, VLive ra oa, VLive rb ob => if Nat.eqb a b then s else ptr_swap obj_only s a b ra oa rb ob
       | _, _, _ => s
       end
-  | OWrite v =>
+  | OAssignRaw d sv =>
+      (* Object* refObj = obj; if(refObj) increment; if(this->refObj && decrement == 0) delete; store *)
+      match f, getv s d, getv s sv with
+      | FPtr, VLive rd _, VLive _ o =>
+          let s := match o with HBlock b => inc s b | HNone => s end in
+          let s := release FPtr s rd in
+          setv s d (both o)
+      | _, _, _ => s
+      end
+  | OAssignVal v c =>
       match f, getv s v with
-      | FStr, VLive r _ => str_detach s v r 1
-      | FVar, VLive r _ => var_detach s v r 1
-      | FXml, VLive r _ => var_detach s v r 1
+      | FVar, VLive r _ => assign_val FVar s v r c
+      | FXml, VLive r _ => assign_val FXml s v r c
+      | _, _ => s
+      end
+  | OWrite v m =>
+      match f, getv s v with
+      | FStr, VLive r _ => str_detach s v r m
+      | FVar, VLive r _ => var_detach s v r m
+      | FXml, VLive r _ => var_detach s v r m
       | _, _ => s
       end
   | ODetach v =>
@@ -292,7 +340,7 @@ Definition observe_var (s : state) (x : var) : state * vobs :=
           let s := touch s b in
           let rb := match r with HBlock c => Some c | HNone => None end in
           let s := match r with HBlock c => touch s c | HNone => s end in
-          (s, VOVal b (len (getb s b)) (match r with HBlock c => rc (getb s c) | HNone => 0 end) rb)
+          (s, VOVal b (val (getb s b)) (match r with HBlock c => rc (getb s c) | HNone => 0 end) rb)
       end
   end.
 
